@@ -295,7 +295,8 @@ pub fn run(prop: &dyn Prop, args: &RunArgs) -> i32 {
                 if let Some(d) = &outdir {
                     let _ = std::fs::write(format!("{}/shard-{}.hang", d, shard), &tag);
                 }
-                eprintln!("WATCHDOG case {} exceeded {} s", tag, limit);
+                let context = CONTEXT.try_lock().map(|c| c.clone()).unwrap_or_default();
+                eprintln!("WATCHDOG case {} exceeded {} s; last announced input: {}", tag, limit, context.chars().take(1500).collect::<String>());
                 std::process::exit(86);
             }
         });
